@@ -34,6 +34,7 @@ type statsT struct {
 	Nontrivial  int64 // evaluations that were non-trivial (not de-duplicated)
 	hashes      map[uint64]struct{}
 	hashOverflw int64
+	bulkDistinct int64 // non-trivial cases that are distinct by construction (sweeps), not hashed
 	Labels      map[string]int64
 	Excluded    map[string]int64
 	first       []sampleEntry // first few non-trivial cases
@@ -119,6 +120,30 @@ func (s *statsT) record(key []byte, ci *caseInfo, sample func() interface{}) {
 	}
 }
 
+// bulk accounts for n evaluations of an enumeration whose cases are distinct by
+// construction (the shards partition the space), without hashing each of them.
+func (s *statsT) bulk(label string, n, nontrivial int64) {
+	s.mu.Lock()
+	s.Evaluations += n
+	s.Nontrivial += nontrivial
+	s.bulkDistinct += nontrivial
+	s.Labels[label] += n
+	s.mu.Unlock()
+}
+
+// addSample stores a sample directly (used by sweeps).
+func (s *statsT) addSample(v interface{}) {
+	s.mu.Lock()
+	defer s.mu.Unlock()
+	if len(s.first) >= 3 {
+		return
+	}
+	raw, err := json.Marshal(v)
+	if err == nil {
+		s.first = append(s.first, sampleEntry{0, raw})
+	}
+}
+
 func (s *statsT) exclude(what string) {
 	s.mu.Lock()
 	s.Excluded[what]++
@@ -158,6 +183,7 @@ func (s *statsT) flush(path string) error {
 		"nontrivial_evals":  s.Nontrivial,
 		"distinct_in_shard": len(s.hashes),
 		"hash_overflow":     s.hashOverflw,
+		"bulk_distinct":     s.bulkDistinct,
 		"labels":            s.Labels,
 		"excluded":          s.Excluded,
 		"samples":           samples,
